@@ -12,6 +12,8 @@ from pyteal.ir import (
 from pyteal.util import unescapeStr, correctBase32Padding
 from pyteal.errors import TealInternalError
 
+MAX_CONSTANT_BLOCK_ENTRIES = 256
+
 intEnumValues = {
     # OnComplete values
     "NoOp": 0,
@@ -167,6 +169,11 @@ def createConstantBlocks(ops: List[TealComponent]) -> List[TealComponent]:
         if byteFreqs[b] > 1
     ]
 
+    # intc / bytec address their block with a single byte: at most 256 entries can be referenced,
+    # the remaining (least frequent) constants are pushed directly
+    intBlock = intBlock[:MAX_CONSTANT_BLOCK_ENTRIES]
+    byteBlock = byteBlock[:MAX_CONSTANT_BLOCK_ENTRIES]
+
     if len(intBlock) != 0:
         assembled.append(TealOp(None, Op.intcblock, *intBlock))
 
@@ -214,7 +221,10 @@ def createConstantBlocks(ops: List[TealComponent]) -> List[TealComponent]:
                         "Expect a byte-like constant opcode, get {}".format(op)
                     )
 
-                if byteFreqs[byteValue] == 1:
+                if (
+                    byteFreqs[byteValue] == 1
+                    or sortedBytes.index(byteValue) >= MAX_CONSTANT_BLOCK_ENTRIES
+                ):
                     encodedValue = (
                         ("0x" + byteValue.hex())
                         if type(byteValue) is bytes
